@@ -1,5 +1,144 @@
-(* C12 -- TEMPORARY stub while the proofs are being written; replaced below. *)
-From GV Require Import Prelude FloodM.
-Theorem C12_stub : forall (A : Type) (l : list A), pop_head l = None -> l = [].
-Proof. intros A [|x l]; [reflexivity|discriminate]. Qed.
-Print Assumptions C12_stub.
+(* C12 — hashing a shape returns exactly the geohash cells it touches.
+   Statements about the executable model FloodM (tied to /repo by the correspondence, where the
+   per-cell test is the table of the implementation's own answers).  Generic theorems hold for
+   EVERY cell type with a correct equality test, EVERY neighbour function, EVERY per-cell test
+   and EVERY order in which queue.pop() hands out elements; no bound on sizes.
+   NOT proved (DESIGN C12): that the cells touched by a connected planar shape are 8-connected,
+   and that the per-cell box test is geometric truth -- hence [hash_exact] is PARTIAL.
+   The H3 clauses are covered by no theorem.
+   This file holds only statements closed by [exact] and their Print Assumptions. *)
+From Coq Require Import QArith.
+From GV Require Import Prelude GeohashM GeohashP2 FloodM FloodP FloodP2 FloodP3.
+Open Scope nat_scope.
+
+Definition pop_ok {cell} (pop : list cell -> option (cell * list cell)) : Prop :=
+  (forall q, pop q = None -> q = []) /\
+  (forall q x q', pop q = Some (x, q') ->
+     In x q /\ (forall y, In y q -> y = x \/ In y q') /\ (forall y, In y q' -> In y q) /\
+     length q' < length q).
+
+(* the flood fill returns EXACTLY the cells reachable from the start cell through touching
+   cells along the neighbour function (sound and complete w.r.t. reachability), as a
+   duplicate-free collection, for every pop order *)
+Theorem C12_flood_result : forall cell ceqb, (forall a b : cell, ceqb a b = true <-> a = b) ->
+  forall nbr touch pop, pop_ok pop -> forall start fuel r,
+  flood cell ceqb nbr touch pop start fuel = Some r ->
+  (forall x, In x r <-> reach cell nbr touch start x) /\ NoDup r.
+Proof. intros cell ceqb E nbr touch pop [P1 P2]. exact (flood_result cell ceqb E nbr touch pop P1 P2). Qed.
+Print Assumptions C12_flood_result.
+
+(* no cell disjoint from the shape: every returned cell is the start cell or passes the test *)
+Theorem C12_flood_sound : forall cell ceqb, (forall a b : cell, ceqb a b = true <-> a = b) ->
+  forall nbr touch pop, pop_ok pop -> forall start fuel r c,
+  flood cell ceqb nbr touch pop start fuel = Some r -> In c r -> c = start \/ touch c = true.
+Proof. intros cell ceqb E nbr touch pop [P1 P2]. exact (flood_sound cell ceqb E nbr touch pop P1 P2). Qed.
+Print Assumptions C12_flood_sound.
+
+(* completeness and termination: with fuel above the size of any finite universe that contains
+   the start cell and is closed under the neighbour function, the loop ends and returns every
+   reachable cell *)
+Theorem C12_flood_complete : forall cell ceqb, (forall a b : cell, ceqb a b = true <-> a = b) ->
+  forall nbr touch pop, pop_ok pop -> forall U start fuel,
+  In start U -> (forall c, In c U -> forall n, In n (nbr c) -> In n U) ->
+  length U + 2 <= fuel ->
+  exists r, flood cell ceqb nbr touch pop start fuel = Some r /\
+            forall c, reach cell nbr touch start c -> In c r.
+Proof. intros cell ceqb E nbr touch pop [P1 P2]. exact (flood_complete cell ceqb E nbr touch pop P1 P2). Qed.
+Print Assumptions C12_flood_complete.
+
+(* PARTIAL: exactly the touched cells, IF the touched cells are connected to the start cell along
+   the neighbour function (geometric fact about connected shapes and the 8-neighbourhood, not
+   proved) and the start cell (added untested) is touched *)
+Theorem C12_hash_exact_partial : forall cell ceqb, (forall a b : cell, ceqb a b = true <-> a = b) ->
+  forall nbr touch pop, pop_ok pop -> forall start fuel r,
+  (forall c, touch c = true -> reach cell nbr touch start c) -> touch start = true ->
+  flood cell ceqb nbr touch pop start fuel = Some r -> forall c, In c r <-> touch c = true.
+Proof. intros cell ceqb E nbr touch pop [P1 P2]. exact (hash_exact_partial cell ceqb E nbr touch pop P1 P2). Qed.
+Print Assumptions C12_hash_exact_partial.
+
+(* a multi-shape hashes to the union of its members' cells (a duplicate-free collection) *)
+Theorem C12_hash_multi_union : forall cell ceqb, (forall a b : cell, ceqb a b = true <-> a = b) ->
+  forall hs,
+  (forall x, In x (hash_multi cell ceqb hs) <-> exists h, In h hs /\ In x h) /\
+  NoDup (hash_multi cell ceqb hs).
+Proof.
+  intros cell ceqb E hs. split; [intro x; exact (hash_multi_union cell ceqb E hs x)|exact (hash_multi_NoDup cell ceqb E hs)].
+Qed.
+Print Assumptions C12_hash_multi_union.
+
+(* hash_collection: each cell maps to the aggregation of EXACTLY the shapes whose own hash set
+   (a set: no repeats) contains it, in collection order; cells of no shape are absent; the
+   result has no repeated key and its keys are the union of the shapes' hash sets *)
+Theorem C12_hash_collection_spec : forall cell item val ceqb,
+  (forall a b : cell, ceqb a b = true <-> a = b) ->
+  forall (keys : item -> list cell) (agg : list item -> val), (forall x, NoDup (keys x)) ->
+  forall xs,
+  (forall c, dfind ceqb c (hash_collection cell item val ceqb keys agg xs) =
+             match filter (fun x => cmem cell ceqb c (keys x)) xs with
+             | [] => None
+             | l => Some (agg l)
+             end) /\
+  NoDup (map fst (hash_collection cell item val ceqb keys agg xs)) /\
+  (forall c, In c (map fst (hash_collection cell item val ceqb keys agg xs)) <->
+             exists x, In x xs /\ In c (keys x)).
+Proof.
+  intros cell item val ceqb E keys agg N xs. split.
+  - intro c. exact (hash_collection_spec cell item val ceqb E keys agg N xs c).
+  - exact (hash_collection_keys cell item val ceqb E keys agg N xs).
+Qed.
+Print Assumptions C12_hash_collection_spec.
+
+(* default agg_fn = len: the value is the number of shapes whose hash set contains the cell *)
+Theorem C12_hash_collection_count : forall cell item ceqb,
+  (forall a b : cell, ceqb a b = true <-> a = b) ->
+  forall (keys : item -> list cell), (forall x, NoDup (keys x)) -> forall xs c n,
+  dfind ceqb c (hash_collection cell item nat ceqb keys (@length item) xs) = Some n ->
+  n = length (filter (fun x => cmem cell ceqb c (keys x)) xs) /\ 0 < n.
+Proof.
+  intros cell item ceqb E keys N xs c n H.
+  rewrite (hash_collection_spec cell item nat ceqb E keys (@length item) N xs c) in H.
+  destruct (filter (fun x => cmem cell ceqb c (keys x)) xs); [discriminate|].
+  injection H as <-. cbn. split; [reflexivity|lia].
+Qed.
+Print Assumptions C12_hash_collection_count.
+
+(* ---- the Niemeyer instance (cells = strings, neighbours and cells through the C11 model) ---- *)
+Theorem C12_niemeyer_flood_result : forall c len touch start fuel r,
+  niemeyer_flood c len start touch fuel = Some r ->
+  (forall x, In x r <-> nreach c touch (encode c start len) x) /\ NoDup r.
+Proof. exact niemeyer_flood_result. Qed.
+Print Assumptions C12_niemeyer_flood_result.
+
+(* hash_shape(point): the one cell (of the hasher's length) that contains the point *)
+Theorem C12_hash_point : forall c len p, cfg_ok c -> in_range c p ->
+  exists cell r, niemeyer_point c len p = [cell] /\ length cell = len /\
+                 decode c cell = Ok r /\ in_cell p r.
+Proof. exact niemeyer_point_spec. Qed.
+Print Assumptions C12_hash_point.
+
+(* hash_coordinates: each cell maps to the aggregation of exactly the coordinates encoding to it *)
+Theorem C12_hash_coordinates_spec : forall c len val (agg : list (Q * Q) -> val) pts cell,
+  dfind str_eqb cell (niemeyer_hash_coordinates c len agg pts) =
+  match filter (fun p => str_eqb cell (encode c p len)) pts with
+  | [] => None
+  | l => Some (agg l)
+  end.
+Proof. intros c len val. exact (@niemeyer_hash_coordinates_spec c len val). Qed.
+Print Assumptions C12_hash_coordinates_spec.
+
+(* ---- non-vacuity ---- *)
+(* a 1-D strip of integer cells, neighbours n-1 and n+1, touched cells 3..6, start 4: the flood
+   returns 4,3,5,6 -- including 3 and 6 reached only through other cells -- and stops at the
+   untouched 2 and 7; the pop order (head) satisfies pop_ok *)
+Example C12_nonvacuous_flood :
+  pop_ok (@pop_head Z) /\
+  flood Z Z.eqb (fun n => [n - 1; n + 1]%Z) (fun n => (3 <=? n) && (n <=? 6))%Z pop_head 4%Z 20
+  = Some [4; 3; 5; 6]%Z.
+Proof. split; [split; [apply @pop_head_none|apply @pop_head_some]|vm_compute; reflexivity]. Qed.
+
+(* three "shapes" with key sets {1,2}, {2,3}, {2}: cell 2 counts all three, cell 1 only the first *)
+Example C12_nonvacuous_collection :
+  hash_collection Z (list Z) nat Z.eqb (fun s => s) (@length (list Z)) [[1; 2]; [2; 3]; [2]]%Z
+  = [(1, 1); (2, 3); (3, 1)]%Z%nat /\
+  hash_multi Z Z.eqb [[1; 2]; [2; 3]; [2]]%Z = [1; 2; 3]%Z.
+Proof. split; vm_compute; reflexivity. Qed.
